@@ -29,6 +29,9 @@ package main
 //                  receiver of a method: then the receiver is the first parameter (loops_strs.go)
 //   []string       List (List (BitVec 8)), only as the result of a library call bound to a local or ranged over, read-only
 //                  (len, m[i], range) (loops_strs.go)
+//   [N]T           (T an integer type) the list of the N elements: fields of the receiver, `var a [N]T` locals, and since stage 9
+//                  (loops_arr.go) parameters passed by value (read-only; the list is assumed to have length N), named results
+//                  and locals that hold the array a call returns
 //
 // Statements: x := e, var x T [= e], x = e, x op= e, x++/x--, a[i] = e, _ = a[c] (bounds-check hint), if/else without
 // init, return (anywhere, see below), `for i := range a`, `for _, v := range a`, `for i := range n` (int),
@@ -51,6 +54,10 @@ package main
 // externMethods; strsHeaderText states all of stage 8).
 // A function that calls itself is a definition by structural recursion on an additional parameter `fuel : Nat`; none then
 // means panic or fuel exhausted (loops_rec.go: recHeaderText states all of stage 7).
+// Stage 9 (loops_arr.go: arrHeaderText states all of it): named results (locals that start with their zero values), array
+// parameters, `append(a[:], …)` on an array that is never written, strings.HasPrefix / HasSuffix / TrimSuffix, bytes.Equal
+// and `a + b` on strings (defined in Iota/Model/GoBits.lean), fmt.Errorf without %w (a new error with an opaque name),
+// golang.org/x/crypto/blake2b.Sum256 as a PARAMETER.
 //
 // Two shapes of output.  A function in which nothing can panic and every return is the last statement of the
 // function or of an else-less `if` in tail position is translated as a plain value, exactly as before (range loops
@@ -465,6 +472,9 @@ type loopTr struct {
 	capCaveat  []string                         // parameters for which that caveat applies (for the doc comment)
 	// stage 8 (loops_strs.go)
 	recvParam *ast.Ident // the value receiver `p T` of a method on a named slice type: translated as the first parameter
+	// stage 9 (loops_arr.go)
+	arrParams []types.Object // array parameters `a [N]T` (passed by value): lists assumed to have length N
+	namedRes  []types.Object // named results: locals bound to their zero values in front of the body
 }
 
 func (t *loopTr) fail(n ast.Node, format string, a ...interface{}) {
@@ -531,7 +541,7 @@ func (t *loopTr) kindOf(ty types.Type, at ast.Node) lkind {
 				return k
 			}
 		}
-	case *types.Array: // [N]T: fields of the receiver and local variables (arrays are values: no aliasing); parameters are rejected
+	case *types.Array: // [N]T: fields of the receiver, local variables, parameters by value and results (arrays are values: no aliasing)
 		if k, ok := sliceKind(u.Elem()); ok {
 			return k
 		}
